@@ -92,7 +92,11 @@ def tucker_als(  # noqa: PLR0912, PLR0913, PLR0915
     rank = parse_one_d(rank)
     if len(rank) == 1:
         rank = rank.repeat(N)
-    if len(rank) == N and np.any(rank > np.array(input_tensor.shape)):
+    if len(rank) != N:
+        raise ValueError(
+            f"Ranks: {rank} must be a scalar or have one entry per mode ({N} modes)."
+        )
+    if np.any(rank > np.array(input_tensor.shape)):
         raise ValueError(
             f"Ranks: {rank} cannot exceed the tensor shape: {input_tensor.shape}."
         )
